@@ -23,5 +23,20 @@ def execute(case):
     WORK.mkdir(parents=True, exist_ok=True)
     return ac.run_cycles(case, WORK)
 
+def random_cases(rng, tier):
+    """random object graphs an order of magnitude larger than the enumerated worlds"""
+    yield from ac.random_worlds(rng, 150 if tier == "quick" else 1500)
+
 def nontrivial(o):
     return len(o["in"].get("sw", [])) > 0
+
+MANIFEST = {
+    "text": ("Same registry machine as C01 (MC_Aoef.tla: DocIsStore = every adapter is read after its last store, Exact = document lists "
+             "are exactly the objects reachable from the collection, ParentFirst, AllHit = every lookup during single-pass loading hits). "
+             "For every exported graph (and random larger ones) the real document written by io.save is analysed generically "
+             "(definitions, every reference incl. note authors, badge owners, (tag id, score) pairs, project/evaluation tag lists, parents) "
+             "and TLC validates Closed, DefinedOnce, ParentFirst, NothingMissing, NothingUnreachable against the graph TLC exported."),
+    "note": ("trusted: TLC; checks/aoef_common.py (analyse_doc with the document schema's reference table DOC_REFS, identifier decoding); "
+             "no object repeated inside one list of the saved collection"),
+    "design_ref": "DESIGN.md section 4 C02",
+}
